@@ -32,6 +32,8 @@ def place_term(fl, p, depth):
                 base = base[1][int(name)]
             elif base[0] == 'tuple' and name.isdigit() and int(name) < len(base[1]):
                 base = base[1][int(name)]
+            elif base[0] == 'agg' and base[1] in ('closure', 'coroutine') and name.isdigit() and int(name) < len(base[2]):
+                base = base[2][int(name)]        # a captured variable of a spliced closure: the value it was captured with
             elif base[0] == 'adt' and name in base[3]:
                 base = base[4][base[3].index(name)]
             elif base[0] == 'payload':
